@@ -123,8 +123,8 @@ func gkey(byName bool, name string, dims []string, tags models.Tags) string {
 	if byName {
 		b, n = "1", kit.Esc(name)
 	}
-	// a dimension listed twice (groupBy('host','host')) spells the same group: the window node collapses the
-	// duplicate when it builds the batch header, so the key lists every dimension once
+	// a dimension listed twice (groupBy('host','host')) spells the same group (since fix a050cea the implementation
+	// keeps it once as well; before, only the window node's batch header did): the key lists every dimension once
 	var ps []string
 	seen := map[string]bool{}
 	for _, d := range dims {
